@@ -40,8 +40,9 @@ RULE = ('three real simulators on the same (block, initial registers/memories, i
 IMPORTS_SPEC = 'From PyRTL Require Import Netlist.Sem Netlist.WFDefs Netlist.SpecHarness.'
 IMPORTS_FAST = 'From PyRTL Require Import Sim.FastModel Sim.FastModelHarness.'
 IMPORTS_CLIMB = 'From PyRTL Require Import Netlist.Syntax Sim.CLimb Sim.CLimbHarness.'
+IMPORTS_CEMIT = 'From PyRTL Require Import Sim.CEmitModel Sim.CEmitHarness.'
 COQ_TARGETS = ['theories/Netlist/SpecHarness.vo', 'theories/Sim/FastModelHarness.vo',
-               'theories/Sim/CLimbHarness.vo']
+               'theories/Sim/CLimbHarness.vo', 'theories/Sim/CEmitHarness.vo']
 TRUSTED = ['Sim/CLimb.v `limbs_to_Z` / `limbs_ok` + the per-builder statements in Props/C02.v (what a limb array denotes)',
            'Sim/CLimb.v and Sim/FastModel.v are hand transliterations of the emitters (tied by translated fragments: mask '
            'tables, emitted expression texts, assignment templates, _limbs/_makemask/_getarglimb, concat loop-test order; '
@@ -674,6 +675,26 @@ def run(ctx):
             coq_cases[k]['fastmodel'] = r
     mark('coq-spec+fast')
 
+    # whole-design C model (Sim/CEmitModel.v) on the same cases
+    cem_exprs = []
+    for k, case in enumerate(coq_cases):
+        comp = case['comp']
+        byname = case['block'].wirevector_by_name
+        if isinstance(comp, str):
+            obs_names = []
+        else:
+            sus = truncated_probes(case['block'])
+            obs_names = sorted(nm for nm in comp[0] if nm not in sus and nm in byname)
+        case['cemit_obs'] = obs_names
+        cem_exprs.append('cemit_case %s %s' % (spec_exprs[k], nlx.zlist([case['dump'].wid[byname[nm]] for nm in obs_names])))
+    try:
+        cem_res = ctx.coq_eval(cem_exprs, IMPORTS_CEMIT, tag='c02cemit', shard=shard, jobs=WORKERS)
+        for case, r in zip(coq_cases, cem_res):
+            case['cemit'] = r
+    except Exception as e:  # noqa
+        ctx.model_mismatch('Sim/CEmitModel.v could not be evaluated: %s' % str(e)[-600:], {})
+    mark('coq-cemit')
+
     # CLimb samples: nets x cycles of the pre-synthesis / optimized blocks with operand values from Simulation
     samples = []
     per_case = 26 if quick else 14
@@ -878,6 +899,26 @@ def compare_case(ctx, case):
                                        % (a, b, n), replay_dict(ctx, case, {'net': str(n)}))
                     break
         ctx.count('compared', 'fastmodel-tie')
+    # ---- tie: whole-design C model vs the real CompiledSimulation (and vs Simulation where c_wfb holds)
+    cem = case.get('cemit')
+    if cem is not None:
+        if cem[0] != [1, 1]:
+            ctx.model_mismatch('c_wfb / wfb = %s on a sanity-checked block' % cem[0], replay_dict(ctx, case))
+        if not isinstance(comp, str):
+            obs = case['cemit_obs']
+            want = [fingerprint([comp[0][nm][t] for nm in obs]) for t in range(ncyc)]
+            want_mem = fingerprint([comp[1][mid][a] for (mid, a) in probes])
+            if cem[2] != want or cem[1][0] != want_mem:
+                ctx.model_mismatch('pyrtl.CompiledSimulation and Sim/CEmitModel.v disagree (%s %d %s)' % (
+                    case['family'], case['design'], case['variant']), replay_dict(ctx, case))
+            ctx.count('compared', 'cemit-tie (wires CompiledSimulation shows: %s)' % (
+                '1-9' if len(obs) < 10 else '10-39' if len(obs) < 40 else '40+'))
+        if cem[0] == [1, 1] and not (case['dflt'] != 0 and case['has_mem']):
+            want_all = [fingerprint([ref_trace[nm][t] for nm in dnames]) for t in range(ncyc)]
+            if cem[3] != want_all:
+                ctx.model_mismatch('pyrtl.Simulation and Sim/CEmitModel.v disagree although c_wfb holds (%s %d %s)' % (
+                    case['family'], case['design'], case['variant']), replay_dict(ctx, case))
+            ctx.count('compared', 'cemit-vs-sim (all wires)')
 
 
 def climb_expected(case, n, t):
